@@ -69,6 +69,13 @@ def showVErr : VErr → String
 
 def parseHashes (x : Bytes) : List Bytes := splitOn (44 : UInt8) x
 
+/-- protocol of `entry.verify`: an optional 7th argument lists (as digits) the digests whose
+    recorded hash is replaced by the empty string through the entry's public fields -/
+def blankSums (blank : Option Bytes) (cs : List (Digest × Bytes)) : List (Digest × Bytes) :=
+  match blank with
+  | none => cs
+  | some bl => cs.map fun c => if bl.contains (48 + (Digest.all.idxOf c.1).toUInt8) then (c.1, []) else c
+
 def model (op : String) (args : List Bytes) : Option String := do
   match op with
   | "distinfo.line" => let x ← args[0]?; pure (showLine (lineFromBytesNl x))
@@ -122,7 +129,8 @@ def model (op : String) (args : List Bytes) : Option String := do
     let hashOf (dg : Digest) (pm : Bool) : Option Bytes := (if pm then hq else hp)[Digest.all.idxOf dg]?
     match (d.distfiles.get en).orElse (fun _ => d.patchfiles.get en) with
     | none => pure "noentry"
-    | some e =>
+    | some e0 =>
+      let e := { e0 with checksums := blankSums (args[6]?) e0.checksums }
       let size := match e.verifySize (some content.length) with | .ok n => s!"ok:{n}" | .error er => showVErr er
       let sums := Digest.all.map fun dg =>
         match e.verifyChecksum hashOf dg with | .ok _ => "ok" | .error er => showVErr er
@@ -281,8 +289,8 @@ def oracleC12 (op : String) (args : List Bytes) (impl : String) : String × Stri
     -- Entry-level API: the file on disk may be named differently from the entry; what is
     -- hashed is decided by the ENTRY's kind, never by the name of the file that is checked
     match args with
-    | [f, en, fname, content, plain, patch] =>
-      let groups := (S.distinfoDocument f).2
+    | f :: en :: fname :: content :: plain :: patch :: more =>
+      let groups := ((S.distinfoDocument f).2).map fun g => { g with sums := blankSums more.head? g.sums }
       let hp := parseHashes plain
       let hq := parseHashes patch
       let digestOf (dg : Digest) (pm : Bool) : Bytes := ((if pm then hq else hp)[Digest.all.idxOf dg]?).getD []
